@@ -160,3 +160,149 @@ func Describe(b []byte) string {
 	}
 	return fmt.Sprintf("%x", b)
 }
+
+// ---------------------------------------------------------------------------------------------
+// folder transfers
+
+type DlItem struct {
+	IsFolder bool
+	Path     [][]byte
+	Action   int    // what the client answered
+	Announced int   // size prefix announced by the server (files that were sent)
+	Payload  []byte // flattened file + data as sent by the server
+}
+
+// FolderDownload runs the client side of a folder download. choose decides the action per item:
+// 1 send, 2 resume (offset returned), 3 skip. It returns the items seen and a protocol error, if any.
+func FolderDownload(srv *fixture.Server, addr string, ref []byte, maxItems int, choose func(i int, it *DlItem) (action, offset int)) ([]DlItem, *refclient.Transfer, error) {
+	t := refclient.OpenTransfer(srv, addr)
+	t.Conn.Send(rc.Preamble(ref, 0), []byte{0, 1})
+	var items []DlItem
+	rd := func(n int) ([]byte, error) {
+		b := make([]byte, n)
+		_, err := t.Conn.ClientReadFull(b, TransferWatchdog, t.Conn.HandlerDone)
+		return b, err
+	}
+	for i := 0; i < maxItems; i++ {
+		szb, err := rd(2)
+		if err != nil {
+			// no more item headers: the server is done (it sleeps before returning)
+			return items, t, nil
+		}
+		sz := int(szb[0])<<8 | int(szb[1])
+		rest, err := rd(sz)
+		if err != nil {
+			return items, t, fmt.Errorf("item %d: header announces %d bytes, stream ended: %v", i, sz, err)
+		}
+		p, err := rc.ParseFolderItem(append(szb, rest...))
+		if err != nil {
+			return items, t, fmt.Errorf("item %d: %v", i, err)
+		}
+		it := DlItem{IsFolder: p.IsFolder, Path: p.Items}
+		action, offset := choose(i, &it)
+		it.Action = action
+		switch action {
+		case 3:
+			t.Conn.Send([]byte{0, 3})
+			items = append(items, it)
+			continue
+		case 2:
+			rdata := rc.ResumeData(rc.DataFork(offset), rc.RsrcFork(0))
+			t.Conn.Send(append(append([]byte{0, 2}, rc.U16(len(rdata))...), rdata...))
+		default:
+			t.Conn.Send([]byte{0, 1})
+		}
+		if it.IsFolder {
+			items = append(items, it)
+			continue
+		}
+		pre, err := rd(4)
+		if err != nil {
+			return append(items, it), t, fmt.Errorf("item %d (%q): no size prefix: %v", i, it.Path, err)
+		}
+		it.Announced = int(pre[0])<<24 | int(pre[1])<<16 | int(pre[2])<<8 | int(pre[3])
+		if it.Announced > 64<<20 {
+			return append(items, it), t, fmt.Errorf("item %d: absurd size prefix %d", i, it.Announced)
+		}
+		it.Payload, err = rd(it.Announced)
+		if err != nil {
+			return append(items, it), t, fmt.Errorf("item %d (%q): size prefix announces %d bytes but the stream ended after %d: %v", i, it.Path, it.Announced, len(it.Payload), err)
+		}
+		t.Conn.Send([]byte{0, 3})
+		items = append(items, it)
+	}
+	return items, t, nil
+}
+
+type UpItem struct {
+	IsFolder bool
+	Path     [][]byte
+	RawHeader []byte // when set, sent instead of the encoded header
+	Data     []byte
+	// filled in by the client
+	Action int
+	Offset int
+}
+
+// FolderUpload runs the client side of a folder upload and returns the actions the server chose.
+func FolderUpload(srv *fixture.Server, addr string, ref []byte, items []UpItem) ([]UpItem, *refclient.Transfer, error) {
+	t := refclient.OpenTransfer(srv, addr)
+	t.Conn.Send(rc.Preamble(ref, 0))
+	rd := func(n int) ([]byte, error) {
+		b := make([]byte, n)
+		_, err := t.Conn.ClientReadFull(b, TransferWatchdog, t.Conn.HandlerDone)
+		return b, err
+	}
+	if _, err := rd(2); err != nil {
+		return items, t, fmt.Errorf("no initial action: %v", err)
+	}
+	for i := range items {
+		it := &items[i]
+		hdr := it.RawHeader
+		if hdr == nil {
+			hdr = rc.FolderItem(it.IsFolder, it.Path...)
+		}
+		t.Conn.Send(hdr)
+		a, err := rd(2)
+		if err != nil {
+			return items, t, fmt.Errorf("item %d: no action from the server: %v", i, err)
+		}
+		it.Action = int(a[1])
+		if it.IsFolder {
+			continue
+		}
+		name := it.Path[len(it.Path)-1]
+		switch it.Action {
+		case 3:
+			continue
+		case 2:
+			lb, err := rd(2)
+			if err != nil {
+				return items, t, err
+			}
+			rdata, err := rd(int(lb[0])<<8 | int(lb[1]))
+			if err != nil {
+				return items, t, err
+			}
+			forks, err := rc.DecodeResumeData(rdata)
+			if err != nil || len(forks) == 0 {
+				return items, t, fmt.Errorf("item %d: resume data: %v", i, err)
+			}
+			it.Offset = int(forks[0].Size)
+			if it.Offset > len(it.Data) {
+				return items, t, fmt.Errorf("item %d: resume offset %d beyond %d", i, it.Offset, len(it.Data))
+			}
+			fl := UploadStream(name, nil, it.Data[it.Offset:], nil)
+			t.Conn.Send(append(rc.U32(len(fl)), fl...))
+		case 1:
+			fl := UploadStream(name, nil, it.Data, nil)
+			t.Conn.Send(append(rc.U32(len(fl)), fl...))
+		default:
+			return items, t, fmt.Errorf("item %d: unknown action %x", i, a)
+		}
+		if _, err := rd(2); err != nil {
+			return items, t, fmt.Errorf("item %d: no next-item action after the file: %v", i, err)
+		}
+	}
+	return items, t, nil
+}
